@@ -96,6 +96,13 @@ func startSimulator() *simulator {
 		s.hosts = append(s.hosts, authority)
 		go s.serve(ln, cfg, authority)
 	}
+	/* one more authority on the address of host 0, under another port: {H5} and {H0} differ by
+	   port only (generators that draw hosts from 0..simHosts-1 never see it) */
+	if ln, err := net.Listen("tcp", "127.0.0.2:0"); err == nil {
+		authority := ln.Addr().String()
+		s.hosts = append(s.hosts, authority)
+		go s.serve(ln, cfg, authority)
+	}
 	cl, err := net.Listen("tcp", "127.0.0.1:0")
 	if err == nil {
 		s.canary = cl.Addr().String()
